@@ -5,6 +5,7 @@ cd /verif
 P="${1:-6}"
 one() {
   d="$1"; id="$(basename "$d")"; prop="${id%%-*}"
+  if grep -q '"retired"' "$d/meta.json" 2>/dev/null; then echo "$id $prop retired"; return; fi
   out="$(tools/with_patch.sh "$d/patch.diff" "$prop" 2>&1)"
   if echo "$out" | grep -q "patch does not apply"; then echo "$id $prop patch-does-not-apply"
   elif echo "$out" | grep -q "exit=1"; then
@@ -13,4 +14,4 @@ one() {
 }
 export -f one
 ls -d seeded/*/ | xargs -P "$P" -I{} bash -c 'one {}' | sort > seeded/RESULTS.txt
-grep -c caught seeded/RESULTS.txt; grep -v " caught" seeded/RESULTS.txt
+grep -c caught seeded/RESULTS.txt; grep -v " caught\| retired" seeded/RESULTS.txt
